@@ -31,7 +31,7 @@ var intrinsicSet = map[string]bool{
 	"(time.Time).Equal": true, "(time.Time).After": true, "(time.Time).Before": true, "(time.Time).AddDate": true,
 	"(time.Time).IsZero": true, "(time.Time).Sub": true, "(time.Duration).Hours": true, "time.Date": true,
 	"path/filepath.Join": true, "path/filepath.Clean": true, "path.Join": true,
-	"errors.Is": true,
+	"errors.Is":                 true,
 	"(*sync/atomic.Bool).Store": true, "(*sync/atomic.Bool).Load": true,
 	"(*sync/atomic.Int32).Add": true, "(*sync/atomic.Int32).Load": true, "(*sync/atomic.Int64).Add": true, "(*sync/atomic.Int64).Load": true,
 	"(*sync.WaitGroup).Add": true, "(*sync.WaitGroup).Done": true, "(*sync.WaitGroup).Wait": true,
@@ -352,11 +352,11 @@ func (ex *Exec) sprintf(args []Value) string {
 // ---- sync ----
 
 type syncState struct {
-	count   int
-	waiters []*G
-	locked  bool
-	lockq   []*G
-	doneEvs []*Event
+	count    int
+	waiters  []*G
+	locked   bool
+	lockq    []*G
+	doneEvs  []*Event
 	unlockEv *Event
 }
 
@@ -944,6 +944,14 @@ func (ex *Exec) freezeSlots(v Value, depth int) {
 // assertTerm discharges one assertion on the current path.
 func (ex *Exec) assertTerm(label string, a *Term, known string) {
 	rec := AssertRec{Label: label, Known: known}
+	if a.poison {
+		// the asserted relation involves x/0 with a constant zero denominator: the
+		// properties exempt positions whose defining denominator is zero
+		rec.Result = "exempt"
+		ex.Info["assertion_over_zero_denominator"] = label
+		ex.Asserts = append(ex.Asserts, rec)
+		return
+	}
 	if known != "" && ex.knownSeen[known] {
 		// the recorded finding already has its witness on this path: further
 		// positions routed to the same id are exempt and not re-solved
